@@ -24,7 +24,8 @@ RULE = ('one run = one simulated hand. Button games with blind layouts (sb,bb), 
         'every BringInPosting, is compared with R-OPEN (ref/open.py: position rule on the blinds actually posted, exposed '
         'cards taken from the dealing records and the street definitions - not from the engine\'s own face-up flags -, '
         'lowest/highest up-card with suit tie-break, best/lowest exposed hand by multiplicities, ties to the earliest '
-        'seat) followed by the clockwise skip of players who cannot act. non-trivial = a round with >= 2 players able '
+        'seat) followed by the clockwise skip of players who cannot act; in stud the designated player opens WITH the bring-in: '
+        'he can neither fold nor check at that decision. non-trivial = a round with >= 2 players able '
         'to act was opened; distinct = distinct (variant, layout, opening rule, exposed-rank pattern, who can act) digests')
 ASSUMPTIONS = [
     '"the last blind or straddle" is the largest (latest seat on ties) blind or straddle actually posted; exotic '
@@ -176,6 +177,14 @@ class OpenMonitor(Monitor):
                             f'{actor}. blinds {st.blinds_or_straddles} posted {self.posted} bets {st.bets} stacks {st.stacks} '
                             f'statuses {st.statuses}{detail}', rule=street.opening.name)
         self.expected_bring_in = expected if (first_round and st.bring_in > 0) else None
+        if self.expected_bring_in is not None and st.can_post_bring_in():
+            # the round is opened WITH the forced bring-in: the designated player can neither fold nor check his way out of it
+            # (otherwise the bring-in moves on and a player who does not hold the designated up-card opens the round)
+            for q in ('can_fold', 'can_check_or_call'):
+                if getattr(st, q)():
+                    raise Violation('C13.bring_in_forced', f'player {expected} holds the designated up-card and must open with the '
+                                    f'bring-in (or complete), but {q}() is True', rule='bring_in_forced', query=q)
+            world.ctx.count('bring_in_decisions_checked')
 
 
 def run(ch, ctx):
